@@ -18,7 +18,8 @@
  *        holdq <maxms> <quietms>  <sys> <path> <nth>    keep this thread stopped until no thread of the program has
  *                                                       entered any system call for <quietms> (everything else is
  *                                                       blocked or done), or <maxms> passed
- *    <nth> = 0 means every occurrence; <path> = * matches anything; <sys> = * any logged call;
+ *    <nth> = 0 means every occurrence; <path> = * matches anything, =<path> matches that path exactly, anything
+ *    else is a substring; <sys> = * any logged call;
  * 3. with -S/-P/-M holds random threads at random calls (schedule exploration);
  * 4. enforces a wall-clock bound (-t): on expiry everything is killed and
  *    {"timeout":1} is logged, exit status 124.
@@ -263,7 +264,9 @@ static void at_entry_stop(struct thr *t, struct user_regs_struct *r) {
     for (int i = 0; i < nrules; i++) {
         struct rule *ru = &rules[i];
         if (strcmp(ru->sys, "*") && strcmp(ru->sys, t->d->name)) continue;
-        if (strcmp(ru->path, "*") && !strstr(t->path1, ru->path) && !strstr(t->path2, ru->path)) continue;
+        if (ru->path[0] == '=') {          /* exact path */
+            if (strcmp(t->path1, ru->path + 1) && strcmp(t->path2, ru->path + 1)) continue;
+        } else if (strcmp(ru->path, "*") && !strstr(t->path1, ru->path) && !strstr(t->path2, ru->path)) continue;
         ru->seen++;
         if (ru->nth && ru->seen != ru->nth) continue;
         switch (ru->act) {
